@@ -19,8 +19,8 @@ CLANG = 'clang++-14'
 BASE_FLAGS = ['-std=gnu++17', '-DHAVE_CONFIG_H=1', '-D_FILE_OFFSET_BITS=64', '-D_THREAD_SAFE=1', '-DNDEBUG', '-DXERCES_VERIF_HOOKS=1',
               '-I%s/_build' % REPO, '-I%s/src' % REPO, '-I%s/_build/src' % REPO, '-I%s/harness/include' % VERIF,
               '-fno-builtin', '-fstrict-aliasing', '-w']
-LOWER = ['-O1', '-Xclang', '-disable-llvm-passes', '-S', '-emit-llvm']
-OPT_IR = ['-O1', '-fno-vectorize', '-fno-slp-vectorize', '-fno-unroll-loops', '-fno-builtin', '-S', '-emit-llvm', '-w']
+LOWER = ['-O1', '-fno-pic', '-Xclang', '-disable-llvm-passes', '-S', '-emit-llvm']
+OPT_IR = ['-O1', '-fno-pic', '-fno-vectorize', '-fno-slp-vectorize', '-fno-unroll-loops', '-fno-builtin', '-S', '-emit-llvm', '-w']
 
 CBMC_BASE = ['--unwinding-assertions', '--bounds-check', '--pointer-check', '--div-by-zero-check', '--signed-overflow-check',
              '--undefined-shift-check', '--drop-unused-functions', '--trace', '--json-ui', '--no-standard-checks', '--verbosity', '8']
@@ -124,13 +124,16 @@ def limit_mem(gb):
         resource.setrlimit(resource.RLIMIT_AS, (int(gb * 2**30), int(gb * 2**30)))
     return f
 
-def cbmc(b, tier):
+def cbmc_once(b, tier, extra_unwindset):
     h = b.h; defs = b.defs
     unwind = eval_param(h.get('unwind', {}).get(tier, h.get('unwind', {}).get('all', 8)) if isinstance(h.get('unwind'), dict) else h.get('unwind', 8), defs)
     cmd = ['cbmc', b.cfile, '--function', h['entry'], '--unwind', str(unwind)] + CBMC_BASE
     cmd += ['--object-bits', str(h.get('object_bits', 12))]
-    for k, v in (h.get('unwindset') or {}).items():
-        cmd += ['--unwindset', '%s:%d' % (k, eval_param(v, defs))]
+    us = dict((k, eval_param(v, defs)) for k, v in (h.get('unwindset') or {}).items())
+    us.update(extra_unwindset)
+    for k, v in us.items():
+        cmd += ['--unwindset', '%s:%d' % (k, v)]
+    b.unwindset = us
     cmd += h.get('cbmc_flags', [])
     tl = h.get('timeout', {}).get(tier, 600) if isinstance(h.get('timeout'), dict) else h.get('timeout', 600)
     mem = h.get('mem_gb', 12)
@@ -162,6 +165,25 @@ def cbmc(b, tier):
     if results is None:
         raise Inconclusive('cbmc produced no result (rc=%s): %s' % (r.returncode, '; '.join(errs)[-1500:] or r.stderr[-500:]))
     b.solver_s = solver_s
+    return results
+
+
+def cbmc(b, tier):
+    """run CBMC; loops whose unwinding assertion fails get their own larger bound (up to unwind_cap) and the query is repeated:
+    loops with a concrete trip count (table/bucket initialisation, fixed-size copies) then unwind exactly, data-dependent loops keep the harness bound"""
+    h = b.h
+    cap = h.get('unwind_cap', 130); extra = {}
+    for attempt in range(5):
+        results = cbmc_once(b, tier, extra)
+        bad = [r for r in results if r.get('status') == 'FAILURE' and '.unwind.' in r.get('property', '')]
+        if not bad or h.get('unwind_is_violation') or h.get('no_unwind_adapt'): return results
+        grew = False
+        for r in bad:
+            lid = r['property'].replace('.unwind.', '.')
+            cur = extra.get(lid, b.unwind)
+            if cur >= cap: continue
+            extra[lid] = min(cap, max(cur * 4, 34)); grew = True
+        if not grew: return results
     return results
 
 _nd_maps = {}
